@@ -102,6 +102,13 @@ def run_cases_for(chk):
             for solver in ("euler", "heun"):
                 cases.append(dict(tag=f"{t_}/{solver}", features=dict(f_, solver=solver, dde=True), model=m_, solver=solver, T=2.0, dt=0.05,
                                   dts=0.1, vec=False, cutoff=0.0))
+    # a delayed model with a step size that needs more than six decimals (dt = 6.25e-5, delay = 50 steps): rows == Euler / Heun iterates
+    from rtc.mdl import V, N
+    dshort = dict(name="ds", eqs=[["x", "de", ["*", N(-1.0), ["past", "x", 0.003125]]]], vars={"x": ["output", 1.0]})
+    m_short = gen.model([dshort], {"p": dict(ops=["ds"])})
+    for solver in ("euler", "heun"):
+        cases.append(dict(tag=f"H16-short-delay-small-step/{solver}", features=dict(solver=solver, dde=True, small_dt=True), model=m_short, solver=solver,
+                          T=0.02, dt=6.25e-5, dts=0.0005, vec=False, cutoff=0.0))
     # delayed models under the adaptive solver with a sampling step LARGER than the delay: every accepted step enters the history
     for t_, f_, m_ in gen.dde_models():
         if t_.split("-")[0] in ("H1", "H3"):
